@@ -3,6 +3,9 @@ package sim
 import (
 	"encoding/json"
 	"fmt"
+	"path"
+	"sort"
+	"strings"
 	"time"
 
 	"github.com/compose-spec/compose-go/v2/zsimrt"
@@ -41,8 +44,24 @@ func c01fRun(c *Ctx, r *zsimrt.Run) {
 		c.Violate(Violation{Property: "C01", Clause: clause, Key: clause + ":" + key + optTag(L, clause), Detail: detail, Engine: "c01f", Scenario: b})
 		return
 	}
-	setRequiredByEnabled(L, base)
 	events := append([]zsimrt.IOEvent(nil), fs.Events...)
+	// every subset of size one of the referenced files made absent, INCLUDING the files the fault-free load never
+	// consulted (the enumeration below cannot plant a fault where there is no I/O event): a file the documents in
+	// play refer to, under options that do not switch the referring feature off, has to be looked at. Checked for
+	// the drawn option set and for each option set one flag away from it.
+	checkNeverConsulted(c, L, base, events, execSeed, zsimrt.OrdSorted)
+	for _, L2 := range optionNeighbours(L) {
+		fsv := Materialise(L2)
+		bv := RunLoad(L2, fsv, "", false)
+		c.Count("option-neighbour-loads", 1)
+		if clause, key, detail := c01Judge(L2, bv, nil, fsv.Events, bv.OK); clause != "" {
+			b, _ := json.Marshal(&c01Scenario{Layout: L2, Policy: zsimrt.OrdSorted, ExecSeed: execSeed, Events: fsv.Events, Outcome: bv})
+			c.Violate(Violation{Property: "C01", Clause: clause, Key: clause + ":" + key + optTag(L2, clause), Detail: detail, Engine: "c01f", Scenario: b})
+			continue
+		}
+		checkNeverConsulted(c, L2, bv, fsv.Events, execSeed, zsimrt.OrdSorted)
+	}
+	setRequiredByEnabled(L, base)
 	seen := map[string]bool{}
 	n := 0
 	// a layout with very many I/O events is enumerated with a stride, and never past the worker's time budget
@@ -142,6 +161,123 @@ func c01fRun(c *Ctx, r *zsimrt.Run) {
 	c.Count("single-faults-enumerated", n)
 	c.Max("single-faults-per-layout", n)
 	c.Sample(map[string]any{"main": L.Main, "entry": L.Entry, "io_events": len(events), "single_faults_enumerated": n, "base_outcome": base.Kind()})
+}
+
+// structurallyInPlay: p is a compose file handed to the loader, or an included file / include env_file / extends
+// base file whose name occurs in a document that is itself in play, the option that skips the feature being off.
+// Deliberately narrow (service env files and label files depend on profiles and on the entry point and are left
+// to the event-driven enumeration).
+func structurallyInPlay(L *Layout, p string, depth int) bool {
+	if depth > 8 {
+		return false
+	}
+	for _, m := range L.Main {
+		if m == p {
+			return true
+		}
+	}
+	switch fileClass(p) {
+	case "included-file", "include-env_file":
+		if L.Opts.SkipInclude {
+			return false
+		}
+	case "extends-base-file":
+		if L.Opts.SkipExtends {
+			return false
+		}
+	default:
+		return false
+	}
+	var names []string
+	for f := range L.Files {
+		names = append(names, f)
+	}
+	sort.Strings(names)
+	b := path.Base(p)
+	for _, f := range names {
+		if f == p || !(strings.HasSuffix(f, ".yaml") || strings.HasSuffix(f, ".yml")) {
+			continue
+		}
+		// a base file's own extends is followed only for the service that somebody extends: no conclusion from
+		// a reference made by a base file
+		if fileClass(f) == "extends-base-file" {
+			continue
+		}
+		if strings.Contains(L.Files[f], b) && structurallyInPlay(L, f, depth+1) {
+			return true
+		}
+	}
+	return false
+}
+
+// optionNeighbours: the layout under each option set that differs from the drawn one in exactly one flag.
+func optionNeighbours(L *Layout) []*Layout {
+	var out []*Layout
+	flip := func(f func(o *LoadOpts)) {
+		cp := *L
+		f(&cp.Opts)
+		out = append(out, &cp)
+	}
+	flip(func(o *LoadOpts) { o.SkipValidation = !o.SkipValidation })
+	flip(func(o *LoadOpts) { o.SkipInterpolation = !o.SkipInterpolation })
+	flip(func(o *LoadOpts) { o.SkipNormalization = !o.SkipNormalization })
+	flip(func(o *LoadOpts) { o.NoResolvePaths = !o.NoResolvePaths })
+	flip(func(o *LoadOpts) { o.SkipConsistencyCheck = !o.SkipConsistencyCheck })
+	flip(func(o *LoadOpts) { o.SkipExtends = !o.SkipExtends })
+	flip(func(o *LoadOpts) { o.SkipInclude = !o.SkipInclude })
+	flip(func(o *LoadOpts) { o.SkipResolveEnvironment = !o.SkipResolveEnvironment })
+	flip(func(o *LoadOpts) { o.SkipDefaultValues = !o.SkipDefaultValues })
+	flip(func(o *LoadOpts) { o.DiscardEnvFiles = !o.DiscardEnvFiles })
+	return out
+}
+
+func checkNeverConsulted(c *Ctx, L *Layout, base *Outcome, events []zsimrt.IOEvent, execSeed uint64, policy int) {
+	if !base.OK {
+		return
+	}
+	touched := map[string]bool{}
+	for _, e := range events {
+		touched[e.Path] = true
+	}
+	req := append([]string(nil), L.Required...)
+	sort.Strings(req)
+	for i, p := range req {
+		if (i > 0 && req[i-1] == p) || !structurallyInPlay(L, p, 0) {
+			continue
+		}
+		c.Count("referenced-files-in-play:"+fileClass(p), 1)
+		if touched[p] {
+			continue
+		}
+		f := &zsimrt.Fault{Kind: "enoent", Path: p, Sticky: true}
+		cp := *f
+		fs2 := Materialise(L)
+		fs2.Faults = []*zsimrt.Fault{&cp}
+		out := RunLoad(L, fs2, "", false)
+		c.Count("absent-file-loads-for-unconsulted-references", 1)
+		if clause, key, detail := judgeNeverConsulted(L, base, events, []*zsimrt.Fault{&cp}, out); clause != "" {
+			b, _ := json.Marshal(&c01Scenario{Layout: L, Faults: []*zsimrt.Fault{f}, Policy: policy, ExecSeed: execSeed, Events: fs2.Events, Outcome: out})
+			c.Violate(Violation{Property: "C01", Clause: clause, Key: clause + ":" + key, Detail: detail, Engine: "c01f", Scenario: b})
+		}
+	}
+}
+
+// judgeNeverConsulted: one referenced file, in play, made absent from the start; the fault-free load never
+// looked at it and the load without it succeeds all the same.
+func judgeNeverConsulted(L *Layout, base *Outcome, baseEvents []zsimrt.IOEvent, faults []*zsimrt.Fault, out *Outcome) (clause, key, detail string) {
+	if len(faults) != 1 || base == nil || !base.OK || !out.OK {
+		return
+	}
+	f := faults[0]
+	if f.Kind != "enoent" || !f.Sticky || f.AtSeq != 0 || !isRequired(L, f.Path) || !structurallyInPlay(L, f.Path, 0) {
+		return
+	}
+	for _, e := range baseEvents {
+		if e.Path == f.Path {
+			return
+		}
+	}
+	return "E1-referenced-file-never-consulted", fileClass(f.Path), fmt.Sprintf("%s is referenced by a document in play (options %+v) but the load never looks at it: absent, the load still succeeds", f.Path, L.Opts)
 }
 
 func optTag(L *Layout, clause string) string {
